@@ -24,9 +24,10 @@ class _Store:
 
 
 class SymDict:
-    def __init__(self, levels, vtype, store=None, prefix=(), name='d'):
+    def __init__(self, levels, vtype, store=None, prefix=(), name='d', default=None):
         self.levels = [tuple(l) for l in levels]
         self.vtype = vtype
+        self.default = default     # collections.Counter-like: reading a missing key gives this value (no KeyError)
         self.prefix = tuple(prefix)
         self.name = name
         if store is None:
@@ -68,8 +69,8 @@ class SymDict:
         return z3.Select(self.store.present[self.depth], *idx)
 
     @staticmethod
-    def empty(levels, vtype, name='d'):
-        d = SymDict(levels, vtype, name=name)
+    def empty(levels, vtype, name='d', default=None):
+        d = SymDict(levels, vtype, name=name, default=default)
         dom = []
         for i, lv in enumerate(d.levels):
             dom += [_SORT[t]() for t in lv]
@@ -83,13 +84,15 @@ class SymDict:
 
     def vc_getitem(self, eng, k, node=None):
         key = self._key(k)
+        idx = self.prefix + key
+        if self.default is not None and self.depth == len(self.levels) - 1:
+            return Sym(z3.If(self.present_at(key), z3.Select(self.store.value, *idx), zterm(self.default, self.vtype)), self.vtype)
         if not eng.pure:
             if not eng.branch(self.present_at(key)):
                 raise PyRaise('KeyError', node=node)
-        idx = self.prefix + key
         if self.depth == len(self.levels) - 1:
             return Sym(z3.Select(self.store.value, *idx), self.vtype)
-        return SymDict(self.levels, self.vtype, self.store, idx, self.name)
+        return SymDict(self.levels, self.vtype, self.store, idx, self.name, self.default)
 
     def vc_setitem(self, eng, k, v, node=None):
         key = self._key(k)
@@ -130,13 +133,14 @@ class SymDict:
         raise Unsupported('SymDict.%s' % attr)
 
     def vc_havoc(self, eng, name):
-        return SymDict(self.levels, self.vtype, name=name)
+        return SymDict(self.levels, self.vtype, name=name, default=self.default)
 
     def vc_havoc_inplace(self, eng, name):
         self.store = SymDict(self.levels, self.vtype, name=name).store
 
     def vc_snapshot(self):
-        return SymDict(self.levels, self.vtype, _Store(self.store.present, self.store.value), self.prefix, self.name)
+        return SymDict(self.levels, self.vtype, _Store(self.store.present, self.store.value), self.prefix, self.name,
+                       self.default)
 
     # ---- spec access
     def lookup_default(self, keys, default):
